@@ -16,6 +16,9 @@ CHECKS = {
  "C13": dict(technique="TLA+ spec MatAlg (dense meaning of every container operation + Trans state machine over dense products); TLC checks the matrix operators against algebraic laws and all short Trans histories; TLC-enumerated small matrices and random operands with explicit zeros / zero dimensions run through the library, every result validated by Trace_MatAlg",
              text="Each container call of the real SpMat / SpVec / Mat / Trans is recorded with operands and result and TLC recomputes the mathematical result from the definition (Matrices.tla) and compares entrywise; Trans is validated as a state machine whose abstract state is the pair of dense products.",
              note="Trusted: TLC, Matrices.tla/Rings.tla (model-checked against laws), the harness' dense projection through iter().", design="§3 C13"),
+ "C12": dict(technique="TLA+ spec Kernels (defining equations of triangular solve / Schur complement + transfer maps / direct-sum decomposition, same answer across thread pools) + GroupCols (union-find under a mutex, check and union as separate critical sections, every interleaving on every intersection graph); recorded calls on pools of 1/2/16 threads validated by Trace_Kernels",
+             text="TLC explores all interleavings of the check-then-union tasks of the column grouping on every graph with 4 (thorough: 5) columns (safety, completeness, termination), checks the kernel contracts against textbook reference formulas on complete small domains, and validates every recorded call of the real kernels (pools of 1, 2, 16 threads, repeated calls) against the defining equations.",
+             note="Trusted: TLC, Matrices.tla. Thread schedules of the real code are sampled (three pool sizes), the interleaving quantifier is discharged on the GroupCols model.", design="§3 C12"),
 }
 PENDING = "not yet bound to the specification in this round (see DESIGN.md section 3 for the planned spec and binding)"
 m = {
